@@ -5,6 +5,7 @@ package props
 import (
 	"bytes"
 	"fmt"
+	"strconv"
 	"strings"
 	"sync"
 	"testing"
@@ -69,7 +70,7 @@ func runIncrScript(c incrConf, sc c03Script) c03Outcome {
 	for i := 0; i < len(want) || i < len(obs); i++ {
 		switch {
 		case i >= len(obs):
-			out.sig, out.msg = "missing", fmt.Sprintf("command %d of %d expected on the target never arrived within 5 s of the last source byte: %s", i, len(want), want[i])
+			out.sig, out.msg = "missing", fmt.Sprintf("command %d of %d expected on the target never arrived within 5 s of the last source byte: %s; the target received: %s", i, len(want), want[i], rawTail(srv, 14))
 		case i >= len(want):
 			out.sig, out.msg = "surplus", fmt.Sprintf("the target applied a command the reference does not expect (position %d): %s", i, obs[i])
 		case !sameApplied(want[i], obs[i]):
@@ -94,6 +95,26 @@ func runIncrScript(c incrConf, sc c03Script) c03Outcome {
 		}
 	}
 	return out
+}
+
+// rawTail renders the last n commands the target received, as received.
+func rawTail(srv *mredis.Server, n int) string {
+	log := srv.LogCopy()
+	if len(log) > n {
+		log = log[len(log)-n:]
+	}
+	var parts []string
+	for _, cm := range log {
+		var a []string
+		for _, x := range cm.Argv {
+			if len(x) > 24 {
+				x = x[:24]
+			}
+			a = append(a, strconv.Quote(string(x)))
+		}
+		parts = append(parts, strings.Join(a, " "))
+	}
+	return strings.Join(parts, " ; ")
 }
 
 func (sc c03Script) String() string {
@@ -220,6 +241,23 @@ func TestC03Regress(t *testing.T) {
 	}
 	st.bytes = buf.Bytes()
 	sc := c03Script{st: st, startDB: -1}
+	if o := runIncrScript(c, sc); o.sig != "" {
+		violation(t, "C03", c03Sig(c, sc, o), "config %+v; %s: %s", c, sc, o.msg)
+	}
+	resetIncrConf()
+	// fixed D15: a source transaction that switches into a filtered database: its EXEC was dropped with the
+	// database, the sender kept waiting for it and forwarded the next source MULTI (without its EXEC) to the target
+	c = incrConf{targetDB: -1, senderCount: 1024, senderSize: 104857600, filt: filterConf{dbBlack: []string{"11"}}}
+	c.apply()
+	st = &incrStream{}
+	buf.Reset()
+	for _, argv := range [][][]byte{bb("select", "2"), bb("set", "a", "1"), bb("multi"), bb("select", "11"), bb("set", "k", "v"), bb("exec"),
+		bb("select", "0"), bb("multi"), bb("set", "b", "2"), bb("exec"), bb("set", "c", "3")} {
+		encodeCmd(&buf, argv)
+		st.cmds = append(st.cmds, srcCmd{argv: argv, end: int64(buf.Len())})
+	}
+	st.bytes = buf.Bytes()
+	sc = c03Script{st: st, startDB: -1}
 	if o := runIncrScript(c, sc); o.sig != "" {
 		violation(t, "C03", c03Sig(c, sc, o), "config %+v; %s: %s", c, sc, o.msg)
 	}
